@@ -463,3 +463,175 @@ def impl_compare_projects(spec):
     finally:
         shutil.rmtree(root, ignore_errors=True)
     return res
+
+
+# ---------------------------------------------------------------------------------------------------- round 5
+# SESSIONS: one ContentComparer (as compareProjects creates it) handles a SEQUENCE of compare / add / remove jobs on files
+# of different kinds below one merge stage.
+
+def _tree_state(top):
+    """{relative path: sha256 | "/"} of everything below `top`"""
+    out = {}
+    if not os.path.isdir(top):
+        return out
+    for d, ds, fs in os.walk(top):
+        for x in ds:
+            out[os.path.relpath(os.path.join(d, x), top) + "/"] = "/"
+        for f in fs:
+            q = os.path.join(d, f)
+            try:
+                out[os.path.relpath(q, top)] = sha(q)
+            except OSError:
+                out[os.path.relpath(q, top)] = "?"
+    return out
+
+
+def _run_job(cc, mode, reff, l10f, mergep):
+    if mode == "compare":
+        cc.compare(reff, l10f, mergep)
+    elif mode == "add":
+        cc.add(reff, l10f, mergep)
+    else:
+        cc.remove(reff, l10f, mergep)
+
+
+def impl_session(spec):
+    """spec: quiet, verdicts (None | list of tables), file_verdict, jobs = [{name, mode, ref, l10n}] (bytes in latin-1
+    transport, None = the file does not exist), names pairwise distinct.
+    ONE comparer runs all jobs in order (nothing else touches the package in between); afterwards every job is run
+    again on a FRESH comparer into a stage of its own, and every staged file is analysed like `impl_compare_merge` does.
+    Returns {"jobs": [per-job dict in the shape of impl_compare_merge + session fields], "final": {rel: bytes}}"""
+    install_hook()
+    quiet = int(spec.get("quiet", 0))
+    filters = None
+    if spec.get("verdicts") is not None:
+        filters = [None if t is None else make_filter(t, spec.get("file_verdict", "error")) for t in spec["verdicts"]]
+    base = os.environ.get("VERIF_TMP") or tempfile.gettempdir()
+    root = os.path.realpath(tempfile.mkdtemp(prefix="clv-", dir=base))
+    out = {"jobs": [], "root": root}
+    try:
+        stage = os.path.join(root, "merge")
+        jobs = []
+        for j in spec["jobs"]:
+            name = j["name"]
+            refp = os.path.join(root, "ref", name)
+            l10p = os.path.join(root, "l10n", name)
+            refb, l10b = to_bytes(j.get("ref"), True), to_bytes(j.get("l10n"), True)
+            for q, b in ((refp, refb), (l10p, l10b)):
+                os.makedirs(os.path.dirname(q), exist_ok=True)
+                if b is not None:
+                    with open(q, "wb") as f:
+                        f.write(b)
+            jobs.append({"name": name, "mode": j["mode"], "refp": refp, "l10p": l10p, "refb": refb, "l10b": l10b,
+                         "mergep": os.path.join(stage, name)})
+        inputs = {}
+        for top in ("ref", "l10n"):
+            for rel, h in _tree_state(os.path.join(root, top)).items():
+                inputs[top + "/" + rel] = h
+        cc = Recording(quiet, filters)
+        ncalls = 0
+        for jb in jobs:
+            res = {"fmt": None, "mode": jb["mode"], "root": root}
+            before = listing(root)
+            stage_before = _tree_state(stage)
+            reff = File(jb["refp"], jb["name"], locale=None)
+            l10f = File(jb["l10p"], jb["name"], locale="xx")
+            del _events[:]
+            _armed[0] = True
+            try:
+                _run_job(cc, jb["mode"], reff, l10f, jb["mergep"])
+            except Exception as e:
+                import traceback
+                res["job_exc"] = {"exc": type(e).__name__, "msg": str(e)[:200],
+                                  "where": [f.name for f in traceback.extract_tb(e.__traceback__)][-4:]}
+            finally:
+                _armed[0] = False
+            res["events"] = [e for e in _events]
+            res["merge_calls"] = cc.merge_calls[ncalls:]
+            ncalls = len(cc.merge_calls)
+            res["new_paths"] = [p for p in listing(root) if p not in before]
+            now_inputs = {}
+            for top in ("ref", "l10n"):
+                for rel, h in _tree_state(os.path.join(root, top)).items():
+                    now_inputs[top + "/" + rel] = h
+            res["inputs_unchanged"] = now_inputs == inputs
+            stage_after = _tree_state(stage)
+            own = os.path.relpath(jb["mergep"], stage)
+            res["foreign_changes"] = sorted(
+                p for p in set(stage_before) | set(stage_after)
+                if stage_before.get(p) != stage_after.get(p) and p != own and not (p.endswith("/") and own.startswith(p)))
+            res["merged"] = None
+            if os.path.isfile(jb["mergep"]):
+                with open(jb["mergep"], "rb") as f:
+                    jb["mb"] = f.read()
+                res["merged"] = jb["mb"].decode("latin-1")
+                res["merged_is_l10n"] = jb["l10b"] is not None and jb["mb"] == jb["l10b"]
+                res["merged_is_ref"] = jb["refb"] is not None and jb["mb"] == jb["refb"]
+            out["jobs"].append(res)
+        out["summary"] = [o.toJSON()["summary"].get("xx", {}) for o in cc.observers]
+        final = {}
+        for rel, h in _tree_state(stage).items():
+            if h != "/":
+                with open(os.path.join(stage, rel), "rb") as f:
+                    final[rel] = f.read().decode("latin-1")
+        out["final"] = final
+        out["dirs"] = ([""] if os.path.isdir(stage) else []) + sorted(k[:-1] for k, h in _tree_state(stage).items() if h == "/")
+        # the same jobs, each on a comparer of its own
+        for i, (jb, res) in enumerate(zip(jobs, out["jobs"])):
+            fstage = os.path.join(root, "fresh%d" % i)
+            fp = os.path.join(fstage, jb["name"])
+            cf = Recording(quiet, filters)
+            try:
+                _run_job(cf, jb["mode"], File(jb["refp"], jb["name"], locale=None), File(jb["l10p"], jb["name"], locale="xx"), fp)
+            except Exception as e:
+                res["fresh_exc"] = type(e).__name__
+            res["fresh_calls"] = cf.merge_calls
+            res["fresh_summary"] = [o.toJSON()["summary"].get("xx", {}) for o in cf.observers]
+            res["fresh_merged"] = None
+            if os.path.isfile(fp):
+                with open(fp, "rb") as f:
+                    res["fresh_merged"] = f.read().decode("latin-1")
+            shutil.rmtree(fstage, ignore_errors=True)
+        # analysis of every job, as for a single comparison
+        for jb, res in zip(jobs, out["jobs"]):
+            name, refb, l10b = jb["name"], jb["refb"], jb["l10b"]
+            has_parser = parser.hasParser(name)
+            res["has_parser"] = has_parser
+            reff = File(jb["refp"], name, locale=None)
+            if res["merged"] is not None and refb is not None and has_parser:
+                tmp = os.path.join(root, "again", name)
+                os.makedirs(os.path.dirname(tmp), exist_ok=True)
+                with open(tmp, "wb") as f:
+                    f.write(jb["mb"])
+                cc2 = Recording(0, filters)
+                try:
+                    cc2.compare(reff, File(tmp, name, locale="xx"), None)
+                    res["report2"] = cc2.observers.toJSON()
+                except Exception as e:
+                    res["report2_exc"] = "%s: %s" % (type(e).__name__, e)
+                res["merged_parse"] = parse_entities(name, jb["mb"])
+            if has_parser:
+                if refb is not None:
+                    res["ref_parse"] = parse_entities(name, refb)
+                if l10b is not None:
+                    res["l10n_parse"] = parse_entities(name, l10b)
+                if refb is not None and l10b is not None:
+                    res["l10n_error_keys"] = check_errors(name, refb, l10b)
+                    cc3 = Recording()
+                    cc3.compare(reff, File(jb["refp"], name, locale="xx"), None)
+                    s = cc3.observers.toJSON()["summary"].get("xx", {})
+                    res["ref_clean"] = s.get("errors", 0) == 0 and s.get("warnings", 0) == 0
+    finally:
+        shutil.rmtree(root, ignore_errors=True)
+    return out
+
+
+def impl_caps_of(names):
+    """`parser.getParser(name).capabilities` for every name (None = UserWarning), on a fresh lookup each"""
+    out = []
+    for n in names:
+        try:
+            out.append(parser.getParser(n).capabilities)
+        except UserWarning:
+            out.append(None)
+    return out
